@@ -299,11 +299,23 @@ theorem t9_shape :
     Argot.Gen.T9.mapParallelClampsWorkers = true ∧ Argot.Gen.T9.mapParallelClosesAfterWait = true := by
   decide
 
-/-- the verdict for the current source: the writer part of C20 holds iff the regenerated table says
-"joined before STEP 3". (On the pinned tree `currentJoin = .none`: F6; the oracle prints the code and
-the driver replays `unjoined_incomplete` / `unjoined_race` on the real tool.) -/
+/-- the verdict for any source: the writer part of C20 holds iff the regenerated table says
+"joined before STEP 3" -/
 theorem current_code_verdict : ReportCompleteAndRaceFree currentJoin ↔ currentJoin = .beforeLink :=
   report_ok_iff_joined_early currentJoin
+
+/-- **the current source joins the writer before STEP 3** (regenerated table, re-checked by the kernel
+on every run; repaired by commit 76f6ba0 — on the pinned tree the join code was 0: finding F6, whose
+model is `unjoined_incomplete` / `unjoined_race`, statements about the `.none` variant of the LTS) -/
+theorem current_writer_joined : currentJoin = .beforeLink := by decide
+
+/-- hence, for the current source, under every schedule: no overlap of STEP 3 with the writer's
+iteration, and when `BuildGraph` returns the report file holds every summary present at spawn time,
+nothing was written after `Close`, and the writer has returned. -/
+theorem current_report_complete (S : List Nat) (k : Nat) (σ : St) (h : Reachable currentJoin S k σ) :
+    σ.race = false ∧ (σ.main = .ret → σ.written = S ∧ σ.lost = [] ∧ σ.writer = .done) := by
+  refine ⟨((report_ok_iff_joined_early currentJoin).2 current_writer_joined S k σ h).1, fun hr => ?_⟩
+  exact report_complete_if_joined currentJoin S k σ (by rw [current_writer_joined]; simp) h hr
 
 #print axioms report_complete_if_joined
 #print axioms no_write_after_close_if_joined
@@ -314,6 +326,8 @@ theorem current_code_verdict : ReportCompleteAndRaceFree currentJoin ↔ current
 #print axioms report_ok_iff_joined_early
 #print axioms t9_shape
 #print axioms current_code_verdict
+#print axioms current_writer_joined
+#print axioms current_report_complete
 
 end Argot.ReportWriter
 
